@@ -56,6 +56,11 @@ def unit_assd(ctx, ndim, mode):
     si = 0
     ctx.expect(f"{nm}: a returning path", any(p.kind == "return" for p in paths))
     for pi, p in enumerate(paths):
+        for (snm, spc, sf, sinf) in p.side:
+            if snm.startswith("no-overflow"):
+                # machine-integer side condition; quantified contract facts are not needed to refute it, and the replay decides
+                ctx.oblige(f"{nm}/{snm}#p{pi}", [h for h in spc if not z3.is_quantifier(h)], sf, func=AS + "_distance_transform_edt", kind="side", replay="c07.far",
+                           info={"ndim": ndim, "prefer": [["(<= extent0_S 100000)"]]})
         if p.kind != "return":
             ctx.oblige(f"{nm}/no-exception({p.exc.name() if p.exc else p.kind})#p{pi}", p.pc, z3.BoolVal(False), func=fn, replay="c07.assd", info={"ndim": ndim})
             continue
@@ -135,8 +140,13 @@ def build(ctx):
         ctx.unit(f"assd[{nd},masks]", lambda nd=nd: unit_assd(ctx, nd, "masks"))
     ctx.unit("assd[3,labels]", lambda: unit_assd(ctx, 3, "labels"))
     ctx.unit("lemmas", lambda: unit_lemmas(ctx))
+    # "unaffected by embedding the masks in a larger or tighter array" through the evaluator rests on the crop contracts of C10
+    include_stage(ctx, "C10", only=lambda mod, sub: [sub.unit(f"bbox[{nd}]", lambda nd=nd: mod.unit_bbox(sub, nd)) for nd in (1, 2, 3)]
+                  + [sub.unit("evaluate_instance", lambda: mod.unit_evaluate_instance(sub))])
     ctx.add_bounded("c07-bruteforce", "c07.bounded")
 
 
 def concretise(ctx, o, r):
+    if (o.info or {}).get("stage"):
+        return stage_concretise(ctx, o, r)
     return {"ndim": o.info.get("ndim")}
